@@ -10,6 +10,7 @@ import GrVerif.Model.FaceLoad
 import GrVerif.Model.GlyphGfx
 import GrVerif.Model.FaceLoadAll
 import GrVerif.Model.NameLoad
+import GrVerif.Proofs.CursorPass
 namespace Driver.Loader
 open GrVerif.Loader Driver
 
@@ -159,6 +160,20 @@ def stepCode (ws : List String) : String :=
         s!"ok ic={p.instrs.length} ds={p.dataSize} mr={p.maxRef} mod={if p.modify then 1 else 0} del={if p.delete then 1 else 0} I:{String.intercalate "," (ops.map toString)} D:{digest data}"
   | _, _ => "bad-op"
 
+/-- `codecur <constraint> <passtype> <pre_context> <rule_length> … <hex>` : the loader's cursor tests as the theorems of Props/C02 use
+them (`codeOK`, Proofs/CursorPass) on the same bytes: `cur=1` when the code passes them from `(_out_index, _out_length) =
+(pre_context, rule_length)` (action code; `pre_context < rule_length` as `Pass::readRules` demands) or `(0, 1)` (constraints) -/
+def stepCodeCur (ws : List String) : String :=
+  match ws.map String.toNat?, ws.getLast? with
+  | [some c, some _, some pre, some rl, some _, some _, some _, some _, _], some h =>
+    match parseHexUnits 2 h with
+    | none => "bad-op"
+    | some b =>
+      let ok := if c ≠ 0 then GrVerif.Pass.codeOK ⟨0, 1, false⟩ b.toList false
+                else decide (pre < rl) && GrVerif.Pass.codeOK ⟨pre, rl, false⟩ b.toList true
+      if ok then "cur=1" else "cur=0"
+  | _, _ => "bad-op"
+
 /-- `glyphs <options> <chunk bits> <numGlyphsGraphics> <Gloc hex> <Glat hex> <gid,…> <key,…>` : `GlyphCache` -/
 def stepGlyphs (ws : List String) : String :=
   match ws with
@@ -275,6 +290,7 @@ def step (line : String) : String :=
   match words line with
   | "classmap" :: rest => stepClassMap rest
   | "code" :: rest => stepCode rest
+  | "codecur" :: rest => stepCodeCur rest
   | "glyphs" :: rest => stepGlyphs rest
   | "face" :: rest => stepFace rest
   | "gfx" :: rest => stepGfx rest
